@@ -615,3 +615,87 @@ Definition check_session_tokens
 Definition check_session_both
   (k : list (string * string) * list (comp * (list string * list nat)) * (list op * list (list obs))) : bool :=
   check_session_chars k && check_session_tokens k.
+
+(* ---------------------------------------------------------------- asks on objects that REMEMBER.
+   The four properties of ComponentSpecification keep what they computed in the object:
+     memoization_info:  if not self._memoization_info: self._memoization_info = self._compute_memoization_info(False)
+     memoization_hash:  if not self._memoization_hash: self._memoization_hash = to_hash(self.memoization_info)
+   (the same for the fuzzy pair; the strong computation only asks producers for their strong hash, the fuzzy one only for
+   their fuzzy hash, so the two caches are independent; a remembered hash is always the hash of the remembered info).
+   `not None` is true: the outcome "no info can be computed now" (a referenced input is missing) is NOT remembered, the
+   next ask computes again; an info that was computed is returned from then on, whatever happens to the files, until
+   memoization_reset() or until a new object is built.  A computation asks the producers through the same properties, so
+   it sees the remembered hash of a producer that has one.
+   cache = one optional info per position of the graph (missing positions: None).  [vals_acc] = what a get returns for
+   every component, in topological order; [remember] = the cache after the components sel were asked.  The selections are
+   closed under "consumes from" (the run asks the producers of a selected component explicitly too; [closed_sel]), so the
+   objects reached by an ask are exactly the selected ones. *)
+Inductive cop := CWrite (loc : string) (mtime : Z) (st : fstate) | CClear | CAsk (fuzzy : bool) (sel : list nat).
+
+Section CachedGen.
+Context {X : Type}.
+Variable step : list (option info) -> X -> option info.   (* the computation, given the infos of the earlier positions *)
+Fixpoint gen_acc (acc : list (option info)) (g : list X) : list (option info) :=
+  match g with
+  | [] => acc
+  | c :: t => gen_acc (acc ++ [step acc c]) t
+  end.
+Fixpoint vals_acc (cache acc : list (option info)) (g : list X) : list (option info) :=
+  match g with
+  | [] => acc
+  | c :: t => vals_acc cache (acc ++ [match nth (List.length acc) cache None with Some x => Some x | None => step acc c end]) t
+  end.
+End CachedGen.
+Definition remember (cache vals : list (option info)) (sel : list nat) : list (option info) :=
+  map (fun k => if existsb (Nat.eqb k) sel then nth k vals None else nth k cache None) (seq 0 (List.length vals)).
+
+Definition closed_sel (g : list comp) (sel : list nat) : bool :=
+  forallb (fun i => match nth_error g i with
+                    | Some c => forallb (fun r => match d_prod r with Some p => existsb (Nat.eqb p) sel | None => true end) (c_refs c)
+                    | None => true
+                    end) sel.
+
+Section CSession.
+Variable md5 : string -> string.
+Definition cstep (fuzzy : bool) (acc : list (option info)) (c : comp) : option info := info_of md5 fuzzy (ph_of md5 acc) c.
+Definition cstep_chars (fuzzy : bool) (acc : list (option info)) (x : comp * (list string * list nat)) : option info :=
+  info_of_chars md5 fuzzy (ph_of md5 acc) (fst (snd x)) (snd (snd x)) (fst x).
+
+(* the answers, one per ask; cs / cf = what the objects remember (strong / fuzzy) *)
+Fixpoint csession (g : list comp) (cs cf : list (option info)) (ops : list cop) : list (list (option info)) :=
+  match ops with
+  | [] => []
+  | CWrite l m s :: t => csession (write l m s g) cs cf t
+  | CClear :: t => csession g [] [] t
+  | CAsk f sel :: t =>
+      let v := vals_acc (cstep f) (if f then cf else cs) [] g in
+      let c' := remember (if f then cf else cs) v sel in
+      pick v sel :: (if f then csession g cs c' t else csession g c' cf t)
+  end.
+Fixpoint csession_chars (g : list (comp * (list string * list nat))) (cs cf : list (option info)) (ops : list cop)
+  : list (list (option info)) :=
+  match ops with
+  | [] => []
+  | CWrite l m s :: t => csession_chars (map (fun x => (write_comp l m s (fst x), snd x)) g) cs cf t
+  | CClear :: t => csession_chars g [] [] t
+  | CAsk f sel :: t =>
+      let v := vals_acc (cstep_chars f) (if f then cf else cs) [] g in
+      let c' := remember (if f then cf else cs) v sel in
+      pick v sel :: (if f then csession_chars g cs c' t else csession_chars g c' cf t)
+  end.
+End CSession.
+
+Definition cop_closed (g : list comp) (o : cop) : bool :=
+  match o with CAsk _ sel => closed_sel g sel | _ => true end.
+(* case = (md5 table, initial graph with oracles, (operations, one list of observations per ask)) *)
+Definition check_csession_chars
+  (k : list (string * string) * list (comp * (list string * list nat)) * (list cop * list (list obs))) : bool :=
+  let '(tbl, g, (ops, ans)) := k in
+  forallb order_ok g && forallb (cop_closed (map fst g)) ops &&
+  all2 (all2 (obs_matches tbl)) (csession_chars (tbl_md5 tbl) g [] [] ops) ans.
+Definition check_csession_tokens
+  (k : list (string * string) * list (comp * (list string * list nat)) * (list cop * list (list obs))) : bool :=
+  let '(tbl, g, (ops, ans)) := k in all2 (all2 (obs_matches tbl)) (csession (tbl_md5 tbl) (map fst g) [] [] ops) ans.
+Definition check_csession_both
+  (k : list (string * string) * list (comp * (list string * list nat)) * (list cop * list (list obs))) : bool :=
+  check_csession_chars k && check_csession_tokens k.
